@@ -125,8 +125,11 @@ func genStream(r *rand.Rand) stream {
 	var sizes []string
 	for k := 0; k < n; k++ {
 		gl := r.Intn(30)
-		if r.Intn(8) == 0 {
-			gl = r.Intn(5000)
+		if r.Intn(5) == 0 {
+			gl = r.Intn(5000) // (junk longer than the read buffer in front of a message)
+			if r.Intn(2) == 0 {
+				gl = 4080 + r.Intn(40)
+			}
 		}
 		buf.Write(garbage(r, gl))
 		size := core.Pick(r, 5, 40, 300, 3000, 4060, 5000, 9000, 20000)
@@ -352,7 +355,7 @@ func runCase(c *core.Ctx, r *core.Result, sname string, i int, rng *rand.Rand, v
 }
 
 func run(c *core.Ctx, r *core.Result) {
-	core.Each(c, r, "streams", c.N(4000, 250000), func(i int, rng *rand.Rand) { runCase(c, r, "streams", i, rng, false) })
+	core.Each(c, r, "streams", c.N(8000, 250000), func(i int, rng *rand.Rand) { runCase(c, r, "streams", i, rng, false) })
 }
 
 func replay(c *core.Ctx, r *core.Result, raw []byte) {
